@@ -12,7 +12,9 @@ META = {
                    'normal forms under a role map (daysInMonth/_days_in_month -> DIM, forComponents(..).dayOfWeek()/date(..).isoweekday() '
                    '-> DOW) and compared on every ordering of their atoms; the previous/next-month paths of the summary give the set '
                    'of day-of-month values that can spill across a year boundary, which must be inside the set the transformer '
-                   'rejects; E-TAB: no shipped rule uses such a value.',
+                   'rejects (read off by interpreting _create_rules_with_on_day_expansion on one-rule policies for every day value '
+                   'in January and December); calcStartDayOfMonth folded through its real body on its whole admitted domain against the '
+                   'calendar; E-TAB: no shipped rule uses such a value.',
     'decided': 'the two implementations are the same decision procedure with the same results on every path; both callers pass '
                '(year, inMonth, onDayOfWeek, onDayOfMonth) in that order; every (month, day-of-month) combination that can resolve '
                'into another year is rejected by the compiler; no shipped rule (zonedb, zonedbx, zonedbpy) has such a combination; '
